@@ -14,7 +14,7 @@ def coords(tags):
     return np.array([[float(t), float(2 * t + 1)] for t in tags]).reshape(-1, 2)
 
 
-def build(g):
+def build(g, by_indices=False):
     from collections import OrderedDict
 
     from menpo.shape import LabelledPointUndirectedGraph
@@ -22,6 +22,13 @@ def build(g):
     masks = OrderedDict((n, np.array(m, dtype=bool)) for n, m in g["labels"])
     E = np.array(sorted(g["edges"]), dtype=int).reshape(-1, 2)
     P = coords(g["pts"])
+    if by_indices:
+        # the other public constructor: labels given as index arrays, connectivity as an adjacency matrix
+        A = np.zeros((len(P), len(P)), dtype=int)
+        for a, b in E:
+            A[a, b] = A[b, a] = 1
+        idx = OrderedDict((n, np.nonzero(m)[0]) for n, m in masks.items())
+        return LabelledPointUndirectedGraph.init_from_indices_mapping(P, A, idx)
     obj = LabelledPointUndirectedGraph.init_from_edges(P, E, masks)
     # what was handed to the constructor stays the caller's: the buffers are reused for something else straight away (mask buffers
     # inverted, the mapping emptied, coordinates and edge list overwritten) - the group must not follow
@@ -52,6 +59,12 @@ def replay(hist):
     obs.append(p)
     if p != expected(hist[0]["res"]):
         return obs, {"step": 0, "what": "initial graph differs", "got": p, "want": expected(hist[0]["res"])}
+    try:
+        p2 = project(build(hist[0]["res"], by_indices=True))
+    except Exception as e:
+        p2 = "%s: %s" % (type(e).__name__, str(e)[:100])
+    if p2 != expected(hist[0]["res"]):
+        return obs, {"step": 0, "what": "the same graph built from index arrays (init_from_indices_mapping) differs", "got": p2, "want": expected(hist[0]["res"])}
     def warm(g):
         """ask every observer once: whatever an object memoises must not leak into the objects derived from it"""
         for l in list(g.labels):
